@@ -28,40 +28,34 @@ theorem fits_step {fx : Fixes} {cfg : Cfg} {sym lw : Nat} {st st' : St} (hf : Fi
   | push style gs rest hs hl hfit =>
     intro sec hsec; exact hf sec (by rw [hs]; exact List.mem_cons_of_mem _ hsec)
   | nl style gs rest hs hl heq hnl => intro sec hsec; cases hsec
-  | split0 style gs rest hs hl hge hnf hw hns => rw [← hs]; exact hf
+  | split0 style gs rest hs hl hge hnf hw hns hnfo => rw [← hs]; exact hf
   | splitk style gs rest hs hl hge hnf hw =>
     intro sec hsec g hg
     simp at hsec
     cases hsec with
     | inl h1 =>
       subst h1
-      exact hf (style, gs) (by rw [hs]; simp) g (takeFit_snd_subset _ _ g hg)
+      exact hf (style, gs) (by rw [hs]; simp) g (takeFitF_snd_subset _ _ _ _ g hg)
     | inr h2 => exact hf sec (by rw [hs]; exact List.mem_cons_of_mem _ h2) g hg
 
-/-- Under `Fits` the forced minimum of `forceProgress` changes nothing. -/
-theorem widthLeftF_fits {fx : Fixes} {cfg : Cfg} {lw len : Nat} {gs : List G}
-    (hf : ∀ g ∈ gs, g.w + cfg.leftSym.w ≤ lw) (hlen : len < lw) (hge : lw ≤ len + gsWidth gs) :
-    widthLeftF fx cfg lw len gs = (gsWidth gs - (len + gsWidth gs - lw)) - cfg.leftSym.w := by
-  unfold widthLeftF
-  split
-  · rename_i h
-    obtain ⟨_, h0⟩ := h
-    subst h0
-    obtain ⟨g, hg, hgp⟩ := gsWidth_pos (gs := gs) (by omega)
-    have h1 := hf g hg
-    cases gs with
-    | nil => simp at hg
-    | cons g0 gs =>
-      have h2 := hf g0 (by simp)
-      simp only [firstW]
-      omega
-  · rfl
-
-theorem widthLeftF_ge_first {fx : Fixes} {cfg : Cfg} {lw : Nat} {gs : List G}
-    (hf : fx.forceProgress = true) : firstW gs ≤ widthLeftF fx cfg lw 0 gs ∧ 1 ≤ widthLeftF fx cfg lw 0 gs := by
-  unfold widthLeftF
-  simp [hf]
-  omega
+/-- Under `Fits`, on an empty line, the first cluster of a section that must be split fits:
+the progress repair never has to force anything. -/
+theorem takeFitF_fits {fx : Fixes} {cfg : Cfg} {lw len : Nat} {gs : List G}
+    (hf : ∀ g ∈ gs, g.w + cfg.leftSym.w ≤ lw) (hge : lw ≤ len + gsWidth gs) :
+    takeFitF fx len (widthLeft cfg lw len gs) gs = takeFit (widthLeft cfg lw len gs) gs := by
+  cases gs with
+  | nil => simp [takeFitF, takeFit]
+  | cons g gs =>
+    apply takeFitF_eq
+    by_cases h0 : len = 0
+    · right; right
+      subst h0
+      have := hf g (by simp)
+      have hfit : g.w ≤ widthLeft cfg lw 0 (g :: gs) := by unfold widthLeft; omega
+      unfold takeFit
+      rw [if_pos hfit]
+      simp
+    · right; left; exact h0
 
 /-- With `Fits`, or with the progress repair, every iteration decreases the measure. -/
 theorem mu_step_fits {fx : Fixes} {cfg : Cfg} {sym lw : Nat} {st st' : St}
@@ -74,28 +68,26 @@ theorem mu_step_fits {fx : Fixes} {cfg : Cfg} {sym lw : Nat} {st st' : St}
   | nl style gs rest hs hl heq hnl =>
     simp only [mu, hs, clusterCount, List.length_cons, List.length_nil]
     split <;> split <;> omega
-  | split0 style gs rest hs hl hge hnf hw hns =>
+  | split0 style gs rest hs hl hge hnf hw hns hnfo =>
     have h2 := lw_ge_two_of_not_limit hl
     have hpos : 0 < st.len := by
       apply Nat.pos_of_ne_zero
       intro h0
-      rw [h0] at hge hw
       cases hf with
-      | inl hforce =>
-        have := (widthLeftF_ge_first (cfg := cfg) (lw := lw) (gs := gs) hforce).2
-        omega
+      | inl hforce => exact hnfo ⟨hforce, h0⟩
       | inr hf =>
+        rw [h0] at hge hw
         have hfs : ∀ g ∈ gs, g.w + cfg.leftSym.w ≤ lw := hf (style, gs) (by rw [hs]; simp)
-        rw [widthLeftF_fits hfs (by omega) (by omega)] at hw
         obtain ⟨g, hg, hgp⟩ := gsWidth_pos (gs := gs) (by omega)
         have := hfs g hg
+        unfold widthLeft at hw
         omega
     simp only [mu, hs, clusterCount, List.length_cons]
     simp [hpos]
   | splitk style gs rest hs hl hge hnf hw =>
     have h2 := lw_ge_two_of_not_limit hl
     by_cases hpos : 0 < st.len
-    · have := takeFit_snd_length_le (widthLeftF fx cfg lw st.len gs) gs
+    · have := takeFitF_snd_length_le fx st.len (widthLeft cfg lw st.len gs) gs
       simp only [mu, hs, clusterCount, List.length_cons]
       simp [hpos]
       omega
@@ -104,16 +96,17 @@ theorem mu_step_fits {fx : Fixes} {cfg : Cfg} {sym lw : Nat} {st st' : St}
       cases gs with
       | nil => simp [gsWidth] at hge; omega
       | cons g gs =>
-        have hfirst : g.w ≤ widthLeftF fx cfg lw 0 (g :: gs) := by
+        have hprog : (takeFitF fx 0 (widthLeft cfg lw 0 (g :: gs)) (g :: gs)).2.length < (g :: gs).length := by
           cases hf with
-          | inl hforce => exact (widthLeftF_ge_first (gs := g :: gs) hforce).1
+          | inl hforce => exact takeFitF_progress fx _ g gs hforce
           | inr hf =>
             have hfs : ∀ g' ∈ g :: gs, g'.w + cfg.leftSym.w ≤ lw := hf (style, g :: gs) (by rw [hs]; simp)
-            rw [widthLeftF_fits hfs (by omega) (by omega)]
+            rw [takeFitF_fits hfs (by omega)]
             have := hfs g (by simp)
+            apply takeFit_progress
+            unfold widthLeft
             omega
-        have := takeFit_progress (widthLeftF fx cfg lw 0 (g :: gs)) g gs hfirst
-        simp only [mu, hs, clusterCount, List.length_cons, h0] at this ⊢
+        simp only [mu, hs, clusterCount, List.length_cons, h0] at hprog ⊢
         simp
         omega
 
@@ -128,13 +121,13 @@ theorem mu_step_limited {fx : Fixes} {cfg : Cfg} {sym lw : Nat} {st st' : St}
   | nl style gs rest hs hl heq hnl =>
     simp only [mu, hs, clusterCount, List.length_cons, List.length_nil]
     split <;> split <;> omega
-  | split0 style gs rest hs hl hge hnf hw hns =>
+  | split0 style gs rest hs hl hge hnf hw hns hnfo =>
     have := not_limit_lt hl hpos
     simp only [mu, hs, clusterCount, List.length_cons, List.length_append, List.length_nil]
     split <;> simp <;> omega
   | splitk style gs rest hs hl hge hnf hw =>
     have := not_limit_lt hl hpos
-    have := takeFit_snd_length_le (widthLeftF fx cfg lw st.len gs) gs
+    have := takeFitF_snd_length_le fx st.len (widthLeft cfg lw st.len gs) gs
     simp only [mu, hs, clusterCount, List.length_cons, List.length_append, List.length_nil]
     split <;> simp <;> omega
 
@@ -219,15 +212,17 @@ theorem stuck_step {fx : Fixes} {cfg : Cfg} {sym lw : Nat} {st : St} (h : Stuck 
   have h4 : ¬ (gsWidth (g :: gs) = lw ∧ fx.zwPerfectFit = true ∧ allZeroWidth rest = true) :=
     fun ⟨a, b⟩ => hnf ⟨a, Or.inr (Or.inr b)⟩
   simp only [Nat.lt_irrefl, decide_false, Bool.false_and, Bool.false_eq_true, if_false, h1, h2, h3, h4]
-  have hwl : widthLeftF fx cfg lw 0 (g :: gs) < g.w := by
-    unfold widthLeftF
-    simp [hfx]
+  have hwl : widthLeft cfg lw 0 (g :: gs) < g.w := by
+    unfold widthLeft
     omega
+  have hforce : ¬ (fx.forceProgress = true ∧ (0 : Nat) = 0) := by simp [hfx]
+  have htf : takeFitF fx 0 (widthLeft cfg lw 0 (g :: gs)) (g :: gs) = ([], g :: gs) := by
+    rw [takeFitF_eq fx 0 _ _ (Or.inl hfx), takeFit_stuck _ g gs hwl]
   split
   · refine ⟨st.curr ++ [(sym, [cfg.leftSym])], ?_⟩
     congr 1
     cases st; simp_all
-  · rw [takeFit_stuck _ g gs hwl]
+  · rw [htf]
     refine ⟨st.curr ++ [(style, []), (sym, [cfg.leftSym])], ?_⟩
     congr 1
     cases st; simp_all
